@@ -411,10 +411,11 @@ def run_property(prop, module, theorems, tier, seed, nquick, nthorough, feature_
     import time as _time
     rnd = core.rng(seed, prop)
     res = core.Result(prop)
-    gen = core.regenerate(['TraceCore.v'])
+    gen = core.regenerate(['TraceCore.v', 'PyLayer.v'])
     res.obl = core.check_obligations(prop, module, theorems, extra_vo=['theories/Trace/Shard.vo'])
-    if gen.get('TraceCore.v'):
-        res.obl['failures'].append('translator refused the source: ' + gen['TraceCore.v'])
+    for g in ('TraceCore.v', 'PyLayer.v'):
+        if gen.get(g):
+            res.obl['failures'].append('translator refused the source (%s): %s' % (g, gen[g]))
     if tier == 'thorough' and not res.obl['failures']:
         core.thorough_coqchk(res, module)
     impl = core.build_impl()
